@@ -61,14 +61,16 @@ def toBoolSol (s : Sol) (flag : Bool) : Except Err Sol :=
 `order` of a Python set) and `QUBOMatrix.solve_bruteforce` is
 `solve_qubo_bruteforce(self, all_solutions, self.is_solution_valid)[1]` with the trivial
 `is_solution_valid` of a Matrix.  The solution dict(s) go through `convert_solution` (`spin = False`). -/
-/-- the proposed repair of DESIGN.md §10 D7 (`fill = true` below):
+/-- `Problem.solve_bruteforce` since the repair of DESIGN.md §10 D7 (upstream 9a5d806; `fill = true`, the default):
 `Q = dict(qubo); for i in range(self.num_binary_variables): Q.setdefault((i,), 0)` followed by
-`solve_qubo_bruteforce(Q, all_solutions)[1]` on that plain dict, so that every label is enumerated. -/
+`solve_qubo_bruteforce(Q, all_solutions)[1]` on that plain dict, so that every label is enumerated.
+`fill = false` is the code before the repair (`qubo.solve_bruteforce(all_solutions)` on the `QUBOMatrix`, which
+drops the labels whose coefficients vanish), kept for the regression record. -/
 def fillZeros (Q : Poly) (n : Nat) : Poly :=
   (List.range n).foldl (fun acc i => if hasKey acc [i] then acc else acc ++ [([i], 0)]) Q
 
 def solveVia {α : Type} (qubo : Except Err Poly) (convert : Sol → Except Err α) (allS : Bool)
-    (order : List Var) (fill : Bool := false) (n : Nat := 0) : Except Err (List α) := do
+    (order : List Var) (fill : Bool := true) (n : Nat := 0) : Except Err (List α) := do
   let Q ← qubo
   let sol ← if fill then
       Brute.solveMethod .qubo ⟨.dict, fillZeros Q n, none⟩ allS (fun _ => true) order
@@ -132,7 +134,7 @@ def NP.valid (p : NP) (s : Sol) : Except Err Bool := do
   let c ← p.convert s
   pure (NP.validConv c)
 
-def NP.solveBruteforce (p : NP) (A : Rat) (allS : Bool) (order : List Var) (fill : Bool := false) :
+def NP.solveBruteforce (p : NP) (A : Rat) (allS : Bool) (order : List Var) (fill : Bool := true) :
     Except Err (List (List Rat × List Rat)) :=
   solveVia (p.toQubo A) p.convert allS order fill p.numVars
 
@@ -200,7 +202,7 @@ def ASC.valid (p : ASC) (s : Sol) (isDict : Bool) (flag : Bool) : Except Err Boo
     pure (ASC.validConv l)
   else pure (ASC.validConv (solValues s))
 
-def ASC.solveBruteforce (p : ASC) (pbc : Bool) (allS : Bool) (order : List Var) (fill : Bool := false) :
+def ASC.solveBruteforce (p : ASC) (pbc : Bool) (allS : Bool) (order : List Var) (fill : Bool := true) :
     Except Err (List (List Rat)) :=
   solveVia (p.toQubo pbc) (fun x => p.convert x true false) allS order fill p.numVars
 
@@ -272,7 +274,7 @@ def VC.valid (p : VC) (s : Sol) (flag : Bool) : Except Err Bool := do
   let c ← p.convert s flag
   pure (p.validConv c)
 
-def VC.solveBruteforce (p : VC) (A B : Rat) (allS : Bool) (order : List Var) (fill : Bool := false) :
+def VC.solveBruteforce (p : VC) (A B : Rat) (allS : Bool) (order : List Var) (fill : Bool := true) :
     Except Err (List (List Var)) :=
   solveVia (p.toQubo A B) (fun x => p.convert x false) allS order fill p.numVars
 
@@ -347,8 +349,9 @@ def dot : List Rat → List Rat → Rat
 def closeTo (a b : Rat) : Bool :=
   decide (absR (a - b) ≤ (1 : Rat) / 100000000 + (1 : Rat) / 100000 * absR b)
 
-/-- `np.allclose(self._S @ x, self._b)`.  `exact = true` is the proposed repair for integer dtypes:
-`np.array_equal(self._S @ x, self._b)`. -/
+/-- `is_solution_valid` on a converted solution.  `exact = true`: both arrays have an integer dtype and are compared
+with `np.array_equal` (upstream 131e8ef); `exact = false`: any other dtype, `np.allclose(self._S @ x, self._b)`
+(before the repair: every dtype). -/
 def BILP.validConv (p : BILP) (x : List Rat) (exact : Bool := false) : Bool :=
   (p.S.zip p.b).all (fun rb => if exact then decide (dot rb.1 x = rb.2) else closeTo (dot rb.1 x) rb.2)
 
@@ -357,7 +360,7 @@ def BILP.valid (p : BILP) (s : Sol) (isDict : Bool) (flag : Bool) (exact : Bool 
   pure (p.validConv x exact)
 
 def BILP.solveBruteforce (p : BILP) (A : Option Rat) (B : Rat) (allS : Bool) (order : List Var)
-    (fill : Bool := false) : Except Err (List (List Rat)) :=
+    (fill : Bool := true) : Except Err (List (List Rat)) :=
   solveVia (p.toQubo A B) (fun x => p.convert x true false) allS order fill p.numVars
 
 end Qv.Prob
